@@ -52,10 +52,11 @@ MNext == /\ Tick /\ EnvNext
                /\ bad' = bad \cup {<<x[1], x[2]>> : x \in (b1 \cup b2) \ {y \in b2 : y[1] = "two commands on one phase"}} \cup {<<x[1], "row">> : x \in RowClause}
 MSpec == MInit /\ [][MNext]_mvars
 
-Sat == 16
+\* ages beyond the largest requirement are indistinguishable for every clause
+Sat == 1 + Dev!MaxI(Dev!MaxI(tRC, tRFC), Dev!MaxI(tRP + tRAS, WL + BLCK + tWRdev + tRP))
 Age(t) == IF now - t > Sat THEN Sat ELSE now - t
 View == <<regs, in, rph, bad,
-          dev.open, Age(dev.tAct[0]), Age(dev.tPre[0]), Age(dev.tWrE[0]), Age(dev.tRef[0]), Age(dev.tCas[0]), Age(dev.tWrEAny[0])>>
+          dev.open, Age(dev.tAct[0]), Age(dev.tPre[0]), Age(dev.tWrE[0]), Age(dev.tRef[0])>>    \* tCCD/tWTR are not required here (multiplexer's job)
 
 Legal == bad = {}
 \* vacuity guards (negated cover goals are checked in separate configs)
